@@ -151,6 +151,7 @@ aproofs! { c08_alias_u8_l1 => 3, 5, [h_alias::<u8, 1>(true)]; }
 aproofs! { c08_alias_u8_l2 => 4, 7, [h_alias::<u8, 2>(true)]; }
 
 //@ id: c08_alias_u8_l3
+//@ besteffort: yes
 //@ prop: C08
 //@ tier: thorough
 //@ cap: 5400
@@ -183,6 +184,7 @@ aproofs! { c08_alias_weights_u8_l3 => 5, 1, [h_alias_weights::<u8, 3>()]; }
 aproofs! { c08_alias_weights_u8_l2 => 4, 1, [h_alias_weights::<u8, 2>()]; }
 
 //@ id: c08_alias_u16_l4
+//@ besteffort: yes
 //@ prop: C08
 //@ tier: thorough
 //@ cap: 3600
@@ -191,6 +193,7 @@ aproofs! { c08_alias_weights_u8_l2 => 4, 1, [h_alias_weights::<u8, 2>()]; }
 aproofs! { c08_alias_u16_l4 => 6, 7, [h_alias::<u16, 4>(false)]; }
 
 //@ id: c08_alias_u8_l4
+//@ besteffort: yes
 //@ prop: C08
 //@ tier: thorough
 //@ cap: 3600
@@ -199,6 +202,7 @@ aproofs! { c08_alias_u16_l4 => 6, 7, [h_alias::<u16, 4>(false)]; }
 aproofs! { c08_alias_u8_l4 => 6, 7, [h_alias::<u8, 4>(true)]; }
 
 //@ id: c08_alias_u32_l2
+//@ besteffort: yes
 //@ prop: C08
 //@ tier: thorough
 //@ cap: 3600
